@@ -4,7 +4,7 @@
 // search for a failing execution (they support, they do not replace, the lockset theorem of Properties/C06.lean).
 //
 //	racerun <scenario> <submitters> <rounds> <seed>
-//	scenario: normal | peerdrop | kafail
+//	scenario: normal | peerdrop | kafail | badresp
 package main
 
 import (
@@ -68,6 +68,21 @@ func peer(l net.Listener, scenario string, seed int64, done chan struct{}) {
 		if scenario == "kafail" && n > 30 {
 			continue // stop answering: the keep-alive and the unbind go unanswered
 		}
+		if scenario == "badresp" && n%3 == 0 {
+			if _, isSubmit := p.(*pdu.SubmitSM); isSubmit {
+				// a response whose body cannot be decoded (message_id without its terminator)
+				h := make([]byte, 18)
+				h[3] = 18
+				h[4], h[7] = 0x80, 0x04
+				sq := pdu.ReadSequence(p)
+				h[12], h[13], h[14], h[15] = byte(sq>>24), byte(sq>>16), byte(sq>>8), byte(sq)
+				h[16], h[17] = 'a', 'b'
+				wmu.Lock()
+				_, _ = c.Write(h)
+				wmu.Unlock()
+				continue
+			}
+		}
 		if r, ok := p.(pdu.Responsable); ok {
 			resp := r.Resp()
 			wg.Add(1)
@@ -109,6 +124,9 @@ func main() {
 	}
 	conn := smpp.NewConn(context.Background(), parent)
 	conn.ReadTimeout = 2 * time.Second
+	if scenario == "normal" {
+		conn.ReadTimeout = 300 * time.Millisecond // shorter than one keep-alive round (the README invites setting it)
+	}
 	conn.WriteTimeout = 2 * time.Second
 	var seqCtr int32
 	conn.NextSequence = func() int32 { return atomic.AddInt32(&seqCtr, 1) }
@@ -138,7 +156,11 @@ func main() {
 		go func(g int) {
 			defer sw.Done()
 			for i := 0; i < rounds; i++ {
-				ctx, cancel := context.WithTimeout(context.Background(), 300*time.Millisecond)
+				to := 300 * time.Millisecond
+				if scenario == "badresp" {
+					to = 20 * time.Millisecond
+				}
+				ctx, cancel := context.WithTimeout(context.Background(), to)
 				_, err := conn.Submit(ctx, &pdu.SubmitSM{ServiceType: "x"})
 				cancel()
 				if err != nil {
